@@ -30,6 +30,7 @@ class Report:
         self.rule = ""
         self.exhaustive = False
         self.stage1 = []           # per TLC run: module, cfg summary, states, distinct, wall
+        self.extra_module = None   # set while an extra stage (vh/extras.py) runs: its replay files name their module
 
     def add_tlc(self, name, r):
         self.states += r.distinct
@@ -48,7 +49,7 @@ class Report:
         if n < 50:
             with open(path, "w") as fh:
                 json.dump({"property": self.pid, "clause": clause, "what": what, "case": case,
-                           "seed": self.seed, "tier": self.tier}, fh, indent=1, default=repr)
+                           "seed": self.seed, "tier": self.tier, "extra_module": self.extra_module}, fh, indent=1, default=repr)
         else:
             path = os.path.join(REPLAYS, f"{self.pid}_{self.tier}_49.json")
         self.violations.append({"clause": clause, "what": what, "replay": path})
